@@ -288,6 +288,15 @@ def resolve_clears(F):
                 modes_here.append(m)
                 if m == mode:
                     verdict = verdict or ("always", C)
+            elif len(conds) == 1 and conds[0].get("k") == "If" and peel(conds[0]["cond"]).get("k") == "Path" and any(x is C for x in walk(conds[0]["then"])):
+                # `let matched = match list { Some(l) if .. => P(..), _ => false }; if matched { C }`: the clear depends on P's
+                # result through a bool local
+                from vlib.facts import binding_site
+                _p, init_, _k = binding_site(body, peel(conds[0]["cond"]).get("res", {}).get("hid"))
+                if isinstance(init_, dict) and any(x is P for x in walk(init_)):
+                    modes_here.append(m)
+                    if m == mode:
+                        verdict = ("on-result", C)
         found.setdefault(res, []).append(modes_here)
         # the resolver itself runs whenever its list is pending: between the per-instruction region and the call only
         # conditions on its own list, on the delete_block state (block alt) or on the operator may stand
@@ -411,21 +420,81 @@ def special_flag(F):
         if not used:
             r.violate("%s | drops add_instr result" % fn["path"], F.loc(fn, call),
                       "the bool returned by Instruction::add_instr (injection was a special mode) is dropped here: a special-mode injection through this path is never resolved, i.e. silently lost")
-    # direct writes to special lists
-    for fn in F.fns:
+    # direct writes to special lists: a `block_alt = Some(..)` (the request to remove/replace a construct)
+    #   (A) is made only under the test that the opcode opens a construct — the same test add_instr applies — so that a
+    #       request the resolver cannot honour is rejected at the call instead of being stored and never looked at;
+    #   (B) is followed, in every API function that makes it (directly or through a setter on the flag/instruction), by
+    #       raising the function's has_special_instr, or the resolver never visits the function.
+    from vlib.facts import guard_conditions
+
+    def raises_flag(g):
+        return any((x.get("k") == "AssignOp" and (place_path(x["lhs"]) or "").endswith("has_special_instr")) or
+                   (x.get("k") == "Assign" and (place_path(x["lhs"]) or "").endswith("has_special_instr") and "Bool(true)" in str(peel(x["rhs"]).get("lit")))
+                   for x in walk(g["body"]))
+
+    def op_test(cond):
+        # a call of the block-style predicate, or a matches!/match on the operator
+        for x in walk(cond):
+            if x.get("k") in ("Call", "MethodCall") and (x.get("callee") or x.get("inst") or "").split("::")[-1] in ("is_block_style_op",):
+                return True
+            if x.get("k") == "Match" and "Operator" in (x.get("scrut_ty") or ""):
+                return True
+        return False
+    setters = set()
+    n_w = 0
+    for fn in F.all_fns:
         if fn.get("body") is None:
             continue
         for n in walk(fn["body"]):
-            if n.get("k") == "Assign":
-                pp = place_path(n["lhs"]) or ""
-                if pp.endswith(".instr_flag.block_alt") and "Some" in str(n["rhs"].get("fres", {}).get("path", "")) + str(n["rhs"].get("k")):
-                    sets = any((x.get("k") == "AssignOp" and (place_path(x["lhs"]) or "").endswith("has_special_instr")) or
-                               (x.get("k") == "Assign" and (place_path(x["lhs"]) or "").endswith("has_special_instr") and "Bool(true)" in str(peel(x["rhs"]).get("lit")))
-                               for x in walk(fn["body"]))
-                    r.analysed.append(fn["path"])
-                    r.ob(sets, {"fn": fn["path"], "writes": "block_alt", "sets_flag": sets})
-                    if not sets:
-                        r.violate("%s | block_alt write without flag" % fn["path"], F.loc(fn, n), "block_alt is set directly without raising has_special_instr")
+            if n.get("k") != "Assign":
+                continue
+            pp = place_path(n["lhs"]) or ""
+            rhs = peel(n["rhs"])
+            is_some = rhs.get("k") == "Call" and (rhs.get("fres") or {}).get("variant") == "Some"
+            if not ((pp.endswith(".block_alt") or pp == "self.block_alt") and is_some):
+                continue
+            n_w += 1
+            in_flag_impl = (fn.get("self_adt") or "").endswith(("::InstrumentationFlag", "::Instruction"))
+            if in_flag_impl:
+                setters.add(fn["path"])
+            conds = guard_conditions(fn["body"], n)
+            tested = any(pol is True and op_test(c) for pol, c in conds if pol in (True, False))
+            other = any(pol in (True, False) and any(y.get("k") == "Field" and y["name"] == "op" for y in walk(c)) for pol, c in conds)
+            if not tested and other:
+                r.undecided("%s: block_alt is set under a test on the opcode of a shape that is not recognised" % fn["path"])
+            else:
+                r.ob(tested, {"fn": fn["path"], "writes": "block_alt", "under the block-style opcode test": tested})
+                if not tested:
+                    r.violate("%s | block_alt set for any opcode" % fn["path"], F.loc(fn, n),
+                              "block_alt is set without testing that the instruction opens a construct (add_instr applies is_block_style_op and panics otherwise): a block-alternate request on any other instruction is accepted and then never looked at by the resolver — silently lost instead of rejected at the call")
+            if not in_flag_impl:
+                sets = raises_flag(fn)
+                r.analysed.append(fn["path"])
+                r.ob(sets, {"fn": fn["path"], "writes": "block_alt", "sets_flag": sets})
+                if not sets:
+                    r.violate("%s | block_alt write without flag" % fn["path"], F.loc(fn, n), "block_alt is set directly without raising has_special_instr")
+    # wrappers on the flag / instruction that reach a setter (Instruction::empty_block_alt → InstrumentationFlag::set_empty_block_alt)
+    grew = True
+    while grew:
+        grew = False
+        for fn in F.all_fns:
+            if fn.get("body") is None or fn["path"] in setters or not (fn.get("self_adt") or "").endswith(("::InstrumentationFlag", "::Instruction")):
+                continue
+            if any(c.get("k") in ("Call", "MethodCall") and (c.get("inst") or c.get("callee") or "") in setters for c in walk(fn["body"])):
+                setters.add(fn["path"])
+                grew = True
+    setters = {p_ for p_ in setters if p_.split("::")[-1] != "add_instr"}     # add_instr reports through its bool (clause above)
+    for fn in F.fns:
+        if fn.get("body") is None or (fn.get("self_adt") or "").endswith(("::InstrumentationFlag", "::Instruction")):
+            continue
+        calls = [c for c in walk(fn["body"]) if c.get("k") in ("Call", "MethodCall") and (c.get("inst") or c.get("callee") or "") in setters]
+        if calls:
+            sets = raises_flag(fn)
+            r.analysed.append(fn["path"])
+            r.ob(sets, {"fn": fn["path"], "requests block_alt through": calls[0].get("method") or "setter", "sets_flag": sets})
+            if not sets:
+                r.violate("%s | block_alt write without flag" % fn["path"], F.loc(fn, calls[0]), "block_alt is requested without raising has_special_instr")
+    r.count("block_alt_writes", n_w)
     # InstrumentationFlag::add_instr, by cases on the current mode (shape-independent): it returns true exactly for the
     # special modes (or diverges because the mode does not apply to the operator), false for the plain ones
     from rules.modes import mode_case_callbacks
